@@ -74,11 +74,11 @@ def pin_gen(name, obs, checks, qmod, **kw):
     return j
 
 
-def promo_gen(name, obs, checks, qmod, **kw):
+def promo_gen(name, obs, checks, qmod, tmod=2, **kw):
     """Mode C: TLC-enumerated promotion situations (Gen_Promo.tla): captures of rooks holding rights, checks along the back rank, pins from behind; every move played."""
     j = {"type": "gen", "name": name, "gen_spec": "Gen_Promo", "driver": "board", "spec": "Trace_Board", "checks": checks,
          "args": {"common": {"obs": ",".join(obs), "gen-play": "all"}},
-         "params": {"quick": {"gencfg": {"mod": qmod, "rem": 0}, "workers": 8}, "thorough": {"gencfg": {"mod": 2, "rem": 0}, "workers": 16, "xmx": "10g", "timeout": 3600}}}
+         "params": {"quick": {"gencfg": {"mod": qmod, "rem": 0}, "workers": 8}, "thorough": {"gencfg": {"mod": tmod, "rem": 0}, "workers": 16, "xmx": "10g", "timeout": 3600}}}
     j.update(kw)
     return j
 
@@ -145,7 +145,7 @@ PROPS = {
         "rule": "all 64*64*7 move values swept through is_legal on every visited state; non-trivial = state with a legal move",
         "assumptions": BOARD_ASSUME,
         "jobs": [
-            promo_gen("promotion-cases", ["islegal"], ["C04"], 80, seed_offset=83),
+            promo_gen("promotion-cases", ["islegal"], ["C04"], 80, tmod=4, seed_offset=83),
             pin_gen("pin-cases", ["islegal"], ["C04"], 30, seed_offset=47),
             ep_gen("ep-cases", ["islegal"], ["C04"], 80, seed_offset=31),
             castle_gen("castling-cases", ["islegal"], ["C04"], 60, seed_offset=29),
@@ -177,6 +177,7 @@ PROPS = {
         "rule": "status() on every visited state; histories include clock setters (99, 100), mates and stalemates from curated roots",
         "assumptions": BOARD_ASSUME,
         "jobs": [
+            promo_gen("promotion-cases", ["status"], ["C12"], 100, seed_offset=103),
             pin_gen("pin-cases", ["status"], ["C12"], 30, seed_offset=67),
             mate_gen("endings", ["status"], ["C12"], seed_offset=3),
             chess_model("model-status", ["StatusOK"], [], dict(MCQ, setters=1), dict(MCT, setters=1)),
@@ -205,7 +206,7 @@ PROPS = {
         "rule": "all 64*64*7 move values through try_play on a clone of every visited state; play() on all accepted plus sampled rejected values; refused moves inside histories",
         "assumptions": BOARD_ASSUME,
         "jobs": [
-            promo_gen("promotion-cases", ["tryplay"], ["C15"], 120, seed_offset=97),
+            promo_gen("promotion-cases", ["tryplay"], ["C15"], 120, tmod=6, seed_offset=97),
             castle_gen("castling-cases", ["tryplay"], ["C15"], 120, seed_offset=61),
             ep_gen("ep-cases", ["tryplay"], ["C15"], 120, seed_offset=59),
             chess_model("model-tryplay", ["TryPlayOK", "IsLegalOK"], ["SuccOK"], dict(MCQ, sweep=1), dict(MCT, sweep=1)),
@@ -216,6 +217,7 @@ PROPS = {
         "rule": "generate_moves_for on ~20 masks per state (empty, full, own, kinds, singletons, random and complements, pinned set, ep origins) and every abort index for two masks",
         "assumptions": BOARD_ASSUME,
         "jobs": [
+            promo_gen("promotion-cases", ["gen", "genfor", "abort"], ["C16"], 150, tmod=16, seed_offset=107),
             chess_model("model-masks", ["BatchesOK", "MaskLaw"], [], MCQ, dict(MCT, max_roots=40)),
             board_job("masks", ["gen", "genfor", "abort"], ["C16"], {"histories": 250, "subtrees": 160}, {"histories": 15000, "subtrees": 400, "deep": 10}, sample_kinds=["genfor", "abort"]),
         ],
